@@ -400,8 +400,13 @@ def run_sup(ctx, case):
     else:
         extra = [('.debug_sup', D.u(le, 2, 5) + b'\0' + fname + b'\0' + b'\x00', 0)]
         sup_extra = [('.debug_sup', D.u(le, 2, 5) + b'\x01' + b'main.elf\0' + b'\x00', 0)]
-    main = build_container(payload, meta, {'t': 'plain'}, extra_sections=extra)['main']
-    sup = build_container(sup_payload, meta, {'t': 'plain'}, extra_sections=sup_extra)['main']
+    # container transforms compose: the main file's (and the supplementary file's) own debug sections may be stored plainly, gABI-compressed or
+    # in the .zdebug naming (all or some sections) while the link section stays what it is
+    main_tr = case.get('main_tr') or {'t': 'plain'}
+    sup_tr = case.get('sup_tr') or {'t': 'plain'}
+    ctx.count('sup.main-container.%s%s' % (main_tr['t'], '' if main_tr.get('which', 'all') == 'all' else '.some'))
+    main = build_container(payload, meta, main_tr, extra_sections=extra)['main']
+    sup = build_container(sup_payload, meta, sup_tr, extra_sections=sup_extra)['main']
     c = {'main': main, 'files': {fname: sup}}
     for loader, follow in ((True, True), (False, True), (True, False)):
         try:
@@ -432,7 +437,7 @@ def run_sup(ctx, case):
                 extra_d = [('.gnu_debugaltlink', rel + b'\0' + bytes(range(20)), 0)]
             else:
                 extra_d = [('.debug_sup', D.u(le, 2, 5) + b'\0' + rel + b'\0' + b'\x00', 0)]
-            main_d = build_container(payload, meta, {'t': 'plain'}, extra_sections=extra_d)['main']
+            main_d = build_container(payload, meta, main_tr, extra_sections=extra_d)['main']
             decoy_str = bytes((b ^ 0x01) if b else 0 for b in sup_str)
             decoy = build_container(dict(sup_payload, **{'.debug_str': decoy_str}), meta, {'t': 'plain'}, extra_sections=sup_extra)['main']
             os.makedirs(os.path.join(root, 'real', 'a', 'bin'))
@@ -465,6 +470,11 @@ def run_sup(ctx, case):
 # ---------------------------------------------------------------------------
 # generators
 
+SUP_CONTAINERS = [{'t': 'plain'}, {'t': 'gabi', 'which': 'all', 'level': 6}, {'t': 'zdebug', 'which': 'all', 'level': 6},
+                  {'t': 'zdebug', 'which': 'some', 'phase': 0, 'info_plain': False, 'level': 1}, {'t': 'zdebug', 'which': 'some', 'phase': 1, 'info_plain': True, 'level': 9},
+                  {'t': 'gabi', 'which': 'some', 'phase': 1, 'level': 1}]
+
+
 def rand_transforms(ch, allow_link=True):
     out = []
     for _ in range(ch.int(3, 5)):
@@ -495,7 +505,8 @@ def build_case(ch, tier):
     if k == 0:
         return {'k': 'sup', 'cls': ch.choice([32, 64]), 'le': ch.bool(), 'style': ch.choice(['altlink', 'debug_sup']),
                 'form': ch.choice(['DW_FORM_GNU_strp_alt', 'DW_FORM_strp_sup']), 'fmt': ch.choice([32, 64]), 'version': ch.choice([2, 3, 4, 5]),
-                'strs': [ch.choice([b'a', b'', b'name', b'n' * 70, 'ü'.encode()]) + bytes([0x41 + i]) for i in range(ch.int(1, 6))]}
+                'strs': [ch.choice([b'a', b'', b'name', b'n' * 70, 'ü'.encode()]) + bytes([0x41 + i]) for i in range(ch.int(1, 6))],
+                'main_tr': ch.choice(SUP_CONTAINERS), 'sup_tr': ch.choice(SUP_CONTAINERS)}
     cls = ch.choice([32, 64])
     le = ch.bool()
     info = c04.build(ch, 'quick')
@@ -568,8 +579,10 @@ def sweep(tier):
             for style in ('altlink', 'debug_sup'):
                 for form, ver in (('DW_FORM_GNU_strp_alt', 4), ('DW_FORM_GNU_strp_alt', 2), ('DW_FORM_strp_sup', 5)):
                     for fmt in (32, 64):
+                        k = len(cases)
                         cases.append({'k': 'sup', 'cls': cls, 'le': le, 'style': style, 'form': form, 'version': ver, 'fmt': fmt,
-                                      'strs': [b'', b'alpha', b'b' * 65, 'é'.encode()]})
+                                      'strs': [b'', b'alpha', b'b' * 65, 'é'.encode()],
+                                      'main_tr': SUP_CONTAINERS[k % len(SUP_CONTAINERS)], 'sup_tr': SUP_CONTAINERS[(k // 5) % len(SUP_CONTAINERS)]})
     # mixed .zdebug naming (what objcopy produces when a section does not shrink)
     ch = RndChooser(110011)
     from vf.checks import c04
